@@ -55,27 +55,56 @@ Definition mig_np (size : N) : N := if size <=? part_size then 0 else (size + pa
 Definition mig_obj (o : obj) : obj :=
   mkObj (o_body o) (mig_np (body_size (o_body o))) (o_ct o) (mig_meta (o_meta o)) (o_tags o) 0.
 
-Definition copy_all (sb db : bucket) : bucket :=
-  fold_left (fun d p => bput d (fst p) (mig_obj (snd p))) (cur_objs sb) db.
+(* the bucket copy / bucket loop / whole migration, parametrized by the per-object transfer function f
+   (f = mig_obj between two local storages; see mig_obj_k for the other storage kinds) *)
+Definition copy_all_f (f : obj -> obj) (sb db : bucket) : bucket :=
+  fold_left (fun d p => bput d (fst p) (f (snd p))) (cur_objs sb) db.
 
 (* ---------- MigrateStorage ---------- *)
 Inductive merr := MOk | MNotEmpty | MNoSuchBucket.
 Definition missing (src dst : store) : list N := filter (fun n => negb (amem n dst)) (map fst src).
 Definition create_missing (dst : store) (names : list N) : store :=
   fold_left (fun d n => d ++ [(n, mkB false [])]) names dst.
-Fixpoint mig_buckets (bs : list (N * bucket)) (dst : store) : store * merr :=
+Fixpoint mig_buckets_f (f : obj -> obj) (bs : list (N * bucket)) (dst : store) : store * merr :=
   match bs with
   | [] => (dst, MOk)
   | (n, sb) :: rest =>
       match aget n dst with
       | None => (dst, MNoSuchBucket)
       | Some db =>
-          if is_nil (cur_objs db) then mig_buckets rest (aset n (copy_all sb db) dst)
+          if is_nil (cur_objs db) then mig_buckets_f f rest (aset n (copy_all_f f sb db) dst)
           else (dst, MNotEmpty)
       end
   end.
-Definition migrate (src dst : store) : store * merr :=
-  mig_buckets src (create_missing dst (missing src dst)).
+Definition migrate_f (f : obj -> obj) (src dst : store) : store * merr :=
+  mig_buckets_f f src (create_missing dst (missing src dst)).
+
+(* local storage -> local storage *)
+Definition copy_all := copy_all_f mig_obj.
+Definition mig_buckets := mig_buckets_f mig_obj.
+Definition migrate := migrate_f mig_obj.
+
+(* ---------- storage kinds ---------- *)
+(* a storage handed to MigrateStorage is a local MetadataPartStorage or an S3ClientStorage in front of
+   a pithos server (whose backing storage holds the state of the model) *)
+Inductive skind := KLocal | KClient.
+Definition ct_octet : N := 4.   (* pool coordinate of "application/octet-stream" *)
+(* what GetObject + GetObjectTagging report for an object: the stored body, content type (absent stays
+   absent), metadata (raw Expires header included) and tags, for both kinds *)
+Definition src_view (k : skind) (o : obj) : obj := o.
+(* what the destination stores: PutObject through the client (bodies up to the part size) does not
+   forward the tag set (C38-put-tags-lost) and the SDK sends "application/octet-stream" when no content
+   type is given, which the server stores; CreateMultipartUpload (larger bodies) forwards tags and
+   leaves an absent content type absent *)
+Definition dst_store (k : skind) (o : obj) : obj :=
+  match k with
+  | KLocal => o
+  | KClient => if o_np o =? 0
+               then mkObj (o_body o) (o_np o) (if o_ct o =? 0 then ct_octet else o_ct o) (o_meta o) [] (o_cls o)
+               else o
+  end.
+Definition mig_obj_k (sk dk : skind) (o : obj) : obj := dst_store dk (mig_obj (src_view sk o)).
+Definition migrate_k (sk dk : skind) : store -> store -> store * merr := migrate_f (mig_obj_k sk dk).
 
 Definition eff_cls (c : N) : N := if c =? 0 then 1 else c.
 
@@ -188,13 +217,16 @@ Definition show_err (e : merr) : bytes :=
 Definition run_line (line : bytes) : bytes :=
   match tokens line with
   | m :: rest =>
-      if bytes_eqb m B"M" then
-        do (src, r1) <- p_store rest;
-        do (dst, r2) <- p_store r1;
-        match r2 with
-        | [] => let (d, e) := migrate src dst in unwords [show_err e; show_store d]
-        | _ => parse_error
-        end
-      else parse_error
+      do kinds <- (if bytes_eqb m B"M" then Some (KLocal, KLocal)
+                   else if bytes_eqb m B"Ms" then Some (KClient, KLocal)
+                   else if bytes_eqb m B"Md" then Some (KLocal, KClient)
+                   else if bytes_eqb m B"Msd" then Some (KClient, KClient)
+                   else None);
+      do (src, r1) <- p_store rest;
+      do (dst, r2) <- p_store r1;
+      match r2 with
+      | [] => let (d, e) := migrate_k (fst kinds) (snd kinds) src dst in unwords [show_err e; show_store d]
+      | _ => parse_error
+      end
   | [] => parse_error
   end.
